@@ -1,5 +1,5 @@
 """C02 Generators never crash on accepted meta-models (DESIGN §4 C02)."""
-from ..rules import err, exh, fmt, contract, exitcode, pre
+from ..rules import err, exh, fmt, contract, exitcode, pre, anchor
 from ..scopes import in_generators, funcs, execute_functions
 
 CLAIM = (
@@ -31,6 +31,8 @@ def run(ctx) -> None:
     ctx.rule("ERR4", "exit code <-> stream pairing in the target mains and smoke", floor=50)
     ctx.rule("PRE-LEN", "LenConstraint precondition established at construction sites", floor=2)
     ctx.rule("FMT", "numeric format specs applied to numbers (generators)", floor=10)
+    ctx.rule("ANCHOR-ATOMS", "patterns that make the regex-VM translator raise are rejected by the front end (same anchoring features)", floor=4)
+    ctx.rule("REVM-PRE", "raising conditions of revm.transform_regex have an upstream guard", floor=2)
     ctx.rule("CONTRACT", "icontract lambdas well-typed (generators)", floor=3)
     for f in funcs(p, in_generators):
         err.check_err12(ctx, f, "ERR1", "ERR1v", "ERR2")
@@ -44,3 +46,6 @@ def run(ctx) -> None:
         if f.module.name != "aas_core_codegen.main":
             exitcode.check_exit_contract(ctx, f, "ERR4")
     pre.check_len_constraint_sites(ctx, "PRE-LEN", in_generators)
+    anchor.check_anchor_agreement(ctx, "ANCHOR-ATOMS")
+    from .c18 import _check_revm_preconditions
+    _check_revm_preconditions(ctx)
